@@ -170,7 +170,17 @@ def rand_case(rng, thorough=False):
         envs = [decorate(rng, e) for e in envs]
         job = decorate(rng, job)
     # bias: make the definitions relate (shared allowed lists / nested bounds) half of the time
-    return case(envs, job)
+    c = case(envs, job)
+    if len(envs) >= 3 and rng.random() < 0.35:
+        # the SAME decoded environment template object at two positions of the list (a caller that applies one queue
+        # environment twice, around another): every position counts, the last default given is the last one
+        i, j = sorted(rng.sample(range(len(envs)), 2))
+        if envs[i] is not None:
+            c["envs"] = list(envs)
+            c["envs"][j] = envs[i]
+            c["same"] = [[i, j]]
+            c["probes"] = probes_for([d for d in c["envs"] if d] + ([job] if job else []))
+    return c
 
 
 def decorate(rng, d):
@@ -340,6 +350,8 @@ class C12(core.PropBase):
             if t is None:
                 return None
             envs.append(t)
+        for i, j in case.get("same") or []:
+            envs[j] = envs[i]
         jt = jc.decoded("job", [case["job"]] if case["job"] else None)
         if jt is None:
             return None
